@@ -87,6 +87,9 @@ func main() {
 		return
 	}
 	pd := registry[*prop]
+	if pd != nil {
+		pd = withShared(pd)
+	}
 	if pd == nil {
 		fmt.Fprintf(os.Stderr, "unknown property %q\n", *prop)
 		os.Exit(2)
@@ -288,4 +291,50 @@ func dumpPaths(c *Ctx, in *Interp, paths []*State, depth int) {
 			}
 		}
 	}
+}
+
+// sharedRules: rules registered under another property that are also necessary
+// conditions of this one ("P/*" = all quick rules of P, "P/RULE" = one rule).
+var sharedRules = map[string][]string{
+	// subset programs behave as under the Go toolchain only if every semantic clause below holds
+	"C01": {"C04/*", "C05/*", "C06/*", "C07/PAR-ROLE", "C07/PAR-RESIZE", "C08/*", "C09/*", "C10/*", "C11/*", "C12/*", "C13/*", "C14/*", "C16/*", "C02/HND-AGREE", "C02/PEEP-DEPTH", "C02/PEEP-MEASURED", "C02/PEEP-GLUE", "C02/PEEP-SPLIT", "C02/PEEP-BOUND"},
+	"C02": {"C04/OPS-IMM", "C20/POS-FUSED"},
+	"C03": {"C14/REP-PRINT"},
+	"C04": {"C02/HND-AGREE", "C11/REP-RAWSLICE"},
+	"C05": {"C02/HND-AGREE"},
+	"C06": {"C07/PAR-RESIZE", "C02/PEEP-DEPTH", "C02/PEEP-SPLIT", "C02/PEEP-GLUE", "C02/PEEP-MEASURED", "C02/PEEP-BOUND", "C02/HND-AGREE"},
+	"C07": {"C06/LAY-SHAPE", "C06/LAY-TARGET", "C06/LAY-REWRITE", "C02/PEEP-MEASURED", "C02/PEEP-DEPTH", "C09/FRM-CHECKS", "C09/FRM-VARIADIC", "C09/LAY-FUNC", "C09/FRM-INVOKE"},
+	"C09": {"C02/HND-AGREE", "C07/PAR-RESIZE", "C07/FRM-PAIR", "C07/INS-PATCH"},
+	"C11": {"C04/REP-TYPEDSTORE"},
+	"C12": {"C04/REP-TYPEDSTORE"},
+}
+
+func withShared(pd *propDef) *propDef {
+	refs := sharedRules[pd.ID]
+	if len(refs) == 0 {
+		return pd
+	}
+	n := *pd
+	n.Quick = append([]ruleDef{}, pd.Quick...)
+	have := map[string]bool{}
+	for _, r := range n.Quick {
+		have[r.Name] = true
+	}
+	var from []string
+	for _, ref := range refs {
+		p, name, _ := strings.Cut(ref, "/")
+		src := registry[p]
+		if src == nil {
+			continue
+		}
+		for _, r := range src.Quick {
+			if (name == "*" || r.Name == name) && !have[r.Name] {
+				have[r.Name] = true
+				n.Quick = append(n.Quick, r)
+			}
+		}
+		from = append(from, ref)
+	}
+	n.Explanation += " Shared necessary conditions also run for this property: " + strings.Join(from, ", ") + " (see those properties' explanations)."
+	return &n
 }
